@@ -447,6 +447,16 @@ func genG08(repo string, w *Out) error {
 	if !strings.HasSuffix(rcs, "c.isHeaderRead.Store(true) return c.headerErr }") {
 		return fmt.Errorf("net.go: readHeaderContext does not end with Store(true); return c.headerErr")
 	}
+	// the deadline of the header read: the configured timeout bounds it whenever it is positive, and on expiry the
+	// connection is closed and the error recorded (Timeout.v)
+	guard := "if c.readHeaderTimeout > 0 { if d, ok := ctx.Deadline(); !ok || d.Sub(t0) > c.readHeaderTimeout { var cancel context.CancelFunc ctx, cancel = context.WithTimeout(ctx, c.readHeaderTimeout) defer cancel() } }"
+	if !strings.Contains(rcs, "t0 := time.Now() "+guard) {
+		return fmt.Errorf("net.go: readHeaderContext does not derive the header deadline from c.readHeaderTimeout in the known shape")
+	}
+	if !strings.Contains(rcs, "select { case <-ctx.Done(): c.Conn.Close() c.headerErr = fmt.Errorf(") || !strings.Contains(rcs, "case r := <-resCh: if r.header != nil { c.header = *r.header } c.headerErr = r.err }") {
+		return fmt.Errorf("net.go: readHeaderContext does not close the connection and record the error when the deadline expires")
+	}
+	w.DefBool("t_timeout_bounds_header_read", true)
 	for _, name := range []string{"Conn.ReadFrom", "Conn.WriteTo"} {
 		fd, err := fn.Func(name)
 		if err != nil {
